@@ -85,7 +85,7 @@ var checks = map[string]*check{
 			"multiplexed broker: histories respect the documented one-at-a-time rule",
 		},
 		Parts: []part{
-			{Name: "histories", Kind: "explore", Scen: "broker_hist", Inst: inst("quick", "thorough3"), Depths: depths([]int{2}, []int{2, 3}), Budget: budget(3*time.Minute, 25*time.Minute)},
+			{Name: "histories", Kind: "explore", Scen: "broker_hist", Inst: inst("quick", "thorough3"), Depths: depths([]int{2}, []int{2, 3}), Budget: budget(6*time.Minute, 25*time.Minute)},
 			// 1300 repeated dials to one pending id (default schedule), then an unmatched accept, an unmatched dial and a fresh matched pair
 			{Name: "mass-duplicates", Kind: "explore", Scen: "broker_hist", Inst: inst("mass", "mass"), Depths: depths([]int{0}, []int{0}), Budget: budget(3*time.Minute, 5*time.Minute)},
 			{Name: "conformance", Kind: "conform", Scen: "broker_hist"},
